@@ -5,7 +5,7 @@ os.chdir(os.path.join(os.path.dirname(__file__), ".."))
 tab = collections.defaultdict(list)
 for f in sorted(glob.glob("harness/*/*.go")):
     pk = f.split("/")[1]
-    for m in re.finditer(r"^func Verif(C\d\d)_(\w+)\(([^)]*)\)", open(f).read(), re.M):
+    for m in re.finditer(r"^func Verif(C\d\d|Hist)_(\w+)\(([^)]*)\)", open(f).read(), re.M):
         args = ", ".join(a.strip().split(" ")[0] for a in re.sub(r"\s+(int|bool)\b", "", m.group(3)).split(",") if a.strip())
         tab[(m.group(1), pk)].append("`%s(%s)`" % (m.group(2), args))
 rows = ["| Property | Package key | Entry points |", "|---|---|---|"]
